@@ -32,8 +32,8 @@ RULE = (
     "distinct = distinct (filter-name sequence, boundary class of each parameter, result sizes) digests; non-trivial = >= 2 filter applications"
 )
 LEVEL_TEXT = (
-    "Seeded histories of filter applications on shared/aliased dataset objects; after every step the real result, the real input and the real configurations are compared with a sequential reference model working on plain data (exact rational percentile, duplicate rules, provenance list, metadata counters), and config-driven application is compared with the manual chain. Sampling, not proof.",
-    "Trusted: NumPy; the percentile model accepts either neighbouring cutoff when the interpolated percentile lies within 1e-9 of an integer.",
+    "Seeded histories of filter applications on shared/aliased dataset objects; after every step the real result, the real input and the real configurations are compared with a sequential reference model working on plain data (exact rational percentile, duplicate rules, provenance list, metadata counters), and config-driven application is compared with the manual chain. Inputs include datasets on both sides of the size threshold, read-back (narrow integer) and merged mixed-type datasets, hand-built large-grid and same-endpoint/different-route mazes, metadata with falsy values; the format threshold is a per-history knob; one interpreter slot in three runs under python -O. Sampling, not proof.",
+    "Trusted: NumPy; the percentile model accepts either neighbouring cutoff only when the interpolated percentile lies within 1e-9 of an integer and NumPy's floating-point evaluation is not provably exact (validated against np.percentile in selftest-models).",
 )
 
 
